@@ -10,7 +10,7 @@
 Require Import Cherab.Common.Qx.
 From Coq Require Import String Qabs.
 From Coq Require Import Sorting.Sorted Permutation.
-Require Import Cherab.Model.C19_Registry Cherab.Model.C19_Shape Cherab.Model.C19_Args Cherab.Proofs.C19_Registry Cherab.Proofs.C19_Deepen.
+Require Import Cherab.Model.C19_Registry Cherab.Model.C19_Shape Cherab.Model.C19_Args Cherab.Proofs.C19_Registry Cherab.Proofs.C19_Deepen Cherab.Proofs.C19_Sound.
 Local Open Scope Z_scope.
 
 (* every element is found by its name, its symbol and its atomic number (as a string in any letter
@@ -275,6 +275,55 @@ Proof.
   split; [exact element_init_sound | split; [exact line_init_sound | split; [exact element_init_complete | exact isotope_init_complete]]].
 Qed.
 Print Assumptions C19_constructor_argument_policy.
+
+(* ---- third layer ------------------------------------------------------------------------------------------ *)
+(* str(int) is injective: two different atomic (or mass) numbers never print the same key *)
+Theorem C19_int_to_string_injective : forall a b, zstr a = zstr b -> a = b.
+Proof. exact zstr_injective. Qed.
+Print Assumptions C19_int_to_string_injective.
+
+(* SOUNDNESS of the lookups, for EVERY registry: whatever is returned for an argument other than the object
+   itself is a registry member one of whose index keys is the lower-cased str() of the argument (with a
+   number: element symbol + str(number)); nothing is invented *)
+Theorem C19_lookup_results_are_sound :
+  forall r,
+  (forall v e, (forall x, v <> VSpecies (SE x)) -> lookup_element r v = Ok e ->
+     In e (elements r) /\ In (lower (py_str v)) (element_keys e))
+  /\ (forall v num i, (forall x, v <> VSpecies (SI x)) ->
+      lookup_isotope_core (element_index r) (isotope_index r) v num = Ok i ->
+      In i (isotopes r) /\
+      match num with
+      | None => In (lower (py_str v)) (isotope_keys i)
+      | Some sn => exists el, lookup_element r v = Ok el /\ In (lower (sapp (e_symbol el) sn)) (isotope_keys i)
+      end).
+Proof. intros r. split; [apply lookup_element_sound | apply lookup_isotope_sound]. Qed.
+Print Assumptions C19_lookup_results_are_sound.
+
+(* ... and in a well-formed registry an atomic number, as an int or as its decimal string, can only lead to an
+   element that HAS this atomic number (uses: str(int) injective and starting with a digit or '-', while every
+   name and symbol of the periodic table starts with a letter) *)
+Theorem C19_lookup_by_number_is_sound :
+  forall r, wf r = true -> forall z e,
+  (lookup_element r (VInt z) = Ok e \/ lookup_element r (VStr (zstr z)) = Ok e) -> e_Z e = z.
+Proof. exact lookup_number_sound. Qed.
+Print Assumptions C19_lookup_by_number_is_sound.
+
+(* equality of hash keys (what CPython's tuple equality decides, an int equal to a float included) is an
+   equivalence relation: the hypothesis "khash respects the hash key" of the dict theorems is consistent, and
+   the classes it induces are well defined *)
+Theorem C19_hash_key_equality_is_an_equivalence :
+  (forall a, hkey_eqb a a = true) /\ (forall a b, hkey_eqb a b = hkey_eqb b a)
+  /\ (forall a b c, hkey_eqb a b = true -> hkey_eqb b c = true -> hkey_eqb a c = true).
+Proof. split; [exact hkey_eqb_refl | split; [exact hkey_eqb_sym | exact hkey_eqb_trans]]. Qed.
+Print Assumptions C19_hash_key_equality_is_an_equivalence.
+
+(* an Isotope passed as the element of Isotope(...) (accepted: subclass instance): whatever the other arguments,
+   the object that is built carries its PARENT's atomic number.  (Lookups / == of such nested objects are not
+   modelled; they cannot be exported: exec refuses the definition, so the tie fails.) *)
+Theorem C19_isotope_on_isotope_takes_parent_number :
+  forall args ni, isotope_on_isotope_init_py args = Done ni -> ni_Z ni = i_Z (ni_parent ni).
+Proof. exact nested_isotope_number. Qed.
+Print Assumptions C19_isotope_on_isotope_takes_parent_number.
 
 (* non-vacuity: a two-element, three-isotope program that loads and is well-formed *)
 Local Open Scope string_scope.
